@@ -345,7 +345,9 @@ def pad_after_scenario(ctx, desc, g, ds, cm):
         gu3 = as_grid_ufunc(signature=sig, boundary_width={"D": (1, 0)})(f)
         r3 = gu3(g, da, axis=[(a,)], boundary="fill", fill_value=fv, pad_before_func=False)
         exp = np.concatenate([np.full((2, 1), float(fv)), np.cumsum(da.values, -1)], -1)
-        for nm, r in (("definition", r1), ("apply", r2), ("call", r3)):
+        r4 = g.apply_as_grid_ufunc(f, da, axis=[(a,)], signature=sig, boundary_width={"D": (1, 0)}, boundary="fill",
+                                   fill_value=fv, pad_before_func=False)
+        for nm, r in (("definition", r1), ("apply", r2), ("call", r3), ("Grid-method", r4)):
             if tuple(r.dims) != ("time", cm[a]["outer"]) or not np.array_equal(r.values, exp):
                 ctx.violation("pad_before_func-binding", f"pad_before_func=False given at {nm} level: result differs from apply-then-pad model")
                 return
